@@ -8,12 +8,19 @@
      unconf  ids reported by IterateUnConfirms         exist  ids for which IsExistByHash is true
      anc     per unconfirmed block its ancestors as GetUnConfirmByHeight resolves them
      disk    GetAccount(a) for every address           stable id of LoadLatestBlock
+   Block ids are assigned by HASH (the adapter's table hash -> id); whatever the real store reports (unconfirmed
+   blocks, ancestors, dropped blocks, the stable block) is translated through that table, so a store that
+   confuses two blocks which agree in height, parent, miner, time, ... and differ only in content shows up as a
+   wrong id set.  AddBlock lines carry the slot of the new block and `agree`: the ids of the blocks made so far
+   whose real header agrees with the new one in every hashed field except ParentHash, Height and the content
+   field `kind` of this behaviour - it must be exactly the blocks of the same slot (the twins are real).
    A line is consumed only if the spec action of ForkView is enabled with the logged arguments, the
    logged result is the one the property demands, and the logged post-state equals the spec state. *)
 EXTENDS ForkView, TraceBase
 tvars == <<vars, l>>
 TrAddrs == 1..Trace[1].naddr
 TrInitStable == {}
+TrKinds == {"miner", "vroot", "txroot", "logroot", "gaslimit", "gasused", "time", "deputyroot", "extra"}   \* the hashed header fields besides ParentHash / Height
 RECURSIVE PathOf(_, _, _)
 PathOf(P, S, b) == IF b = S \/ b \notin DOMAIN P THEN <<>> ELSE Append(PathOf(P, S, P[b]), b)
 \* the logged post-state e against the spec state (P parent, S stable, C chain, V view, D persisted)
@@ -31,8 +38,11 @@ TReset == /\ Ev("reset") /\ E.naddr = Cardinality(Addrs)
           /\ parent' = <<>> /\ n' = 0 /\ stable' = 0 /\ chain' = {0} /\ wr' = {}
           /\ sv' = [a \in Addrs |-> E.sv[a]] /\ view' = (0 :> sv')
           /\ nstab' = 0 /\ nrest' = 0 /\ nreads' = 0
+          /\ attr' = (0 :> 0) /\ kind' = E.kind /\ E.kind \in Kinds
           /\ M
-TAdd == Ev("AddBlock") /\ AddBlock(E.a[1]) /\ E.id = n + 1 /\ M
+TAdd == /\ Ev("AddBlock") /\ AddBlock(E.a[1], E.a[2]) /\ E.id = n + 1
+        /\ ToSet(E.agree) \cap Views = {c \in Views : attr[c] = E.a[2]}
+        /\ M
 TPut == Ev("Put") /\ Put(E.a[1], E.a[2]) /\ M
 \* the value read is the nearest ancestor-or-self write, else the persisted value; nothing else changes
 TGet == Ev("Get") /\ Get(E.a[1], E.a[2]) /\ E.val = view[E.a[1]][E.a[2]] /\ M
@@ -46,11 +56,11 @@ PutAll(b, S) == /\ b \in Live /\ S \subseteq Addrs /\ \A a \in S : <<b, a>> \not
                 /\ LeafOnly => IsLeaf(b)
                 /\ wr' = wr \cup {<<b, a>> : a \in S}
                 /\ view' = [view EXCEPT ![b] = [a \in Addrs |-> IF a \in S THEN Val(b, a) ELSE @[a]]]
-                /\ UNCHANGED <<parent, n, stable, chain, sv, nstab, nrest, nreads>>
+                /\ UNCHANGED <<parent, n, stable, chain, sv, nstab, nrest, nreads, attr, kind>>
 TSave == Ev("Save") /\ PutAll(E.a[1], ToSet(E.a[2])) /\ M
 TraceNext == TReset \/ TAdd \/ TPut \/ TGet \/ TStable \/ TRestart \/ TSave
 TraceSpec == /\ l = 1 /\ parent = <<>> /\ n = 0 /\ stable = 0 /\ chain = {0} /\ wr = {} /\ sv = <<>> /\ view = <<>>
-             /\ nstab = 0 /\ nrest = 0 /\ nreads = 0
+             /\ nstab = 0 /\ nrest = 0 /\ nreads = 0 /\ attr = <<>> /\ kind = ""
              /\ [][TraceNext]_tvars
 \* the clauses, evaluated on every prefix of every real trace (state forced by the real results)
 TrViewIsNearestWrite == l > 1 => ViewIsNearestWrite
